@@ -642,6 +642,13 @@ def op_col(case, o):
         r = a.sum(axis=0) if o.get("how", "method") == "method" else np.sum(a, axis=0)
     elif name == "colmean":
         r = a.mean(axis=0) if o.get("how", "method") == "method" else np.mean(a, axis=0)
+    elif name == "wcolsum":                          # values and totals beyond 2**53 travel as limbs
+        r = np.asarray(a.sum(axis=0) if o.get("how", "method") == "method" else np.sum(a, axis=0))
+        if r.dtype.kind == "f":                      # a float total: report the integers it denotes (dtype of totals is not claimed)
+            if not np.all(np.isfinite(r)):
+                return ["raised", "NonFiniteSum"]
+            return ["flat", arr[0], [_enc.limbs(int(x)) for x in r.tolist()]]
+        return ["flat", dt_of(r.dtype), [_enc.limbs(int(x)) for x in r.tolist()]]
     elif name == "colcounts":
         r = a.col_counts()
     elif name == "colvalues":
